@@ -70,9 +70,15 @@ def visitKids (c : Cfg) (i : Info) (kids : Forest) : Mode :=
   | .bzr => if i.helper then .dead else if i.kind == .dir && !hasCtl kids then .walk else .dead
   | .git => if i.kind == .dir && !hasCtl kids then .walk else .dead
 
-/-- a named directory is put on the work list by phase 1 -/
-def startsWalk (c : Cfg) (p : Path) (i : Info) (m : Mode) : Bool :=
-  c.recurse && c.names.contains p && i.kind == .dir && (c.fmt == .git || m == .idle)
+/-- a named directory is put on the work list by phase 1.  bzr: not if it lies
+in an already scanned / dead region (`_gather_dirs_to_add`), and not if it is a
+*versioned* directory holding a `.bzr` directory: `_get_ie` then reports the
+kind `tree-reference` (`_directory_may_be_tree_reference`) and the path is not
+scheduled (reached from its parent's scan the raw inventory kind `directory`
+is used instead). -/
+def startsWalk (c : Cfg) (p : Path) (i : Info) (kids : Forest) (m : Mode) : Bool :=
+  c.recurse && c.names.contains p && i.kind == .dir &&
+    (c.fmt == .git || (m == .idle && !(i.versioned && kids.hasDir ".bzr")))
 
 /-- one entry: (versioned flag afterwards, mode of its content) -/
 def step (c : Cfg) (p : Path) (m : Mode) (i : Info) (kids : Forest) : Bool × Mode :=
